@@ -11,7 +11,7 @@ def sh(cmd, **kw):
     return subprocess.run(cmd, shell=True, stdout=subprocess.PIPE, stderr=subprocess.STDOUT, text=True, **kw)
 
 def run_checks(props):
-    os.environ['VERIF_EVIDENCE_DIR'] = os.path.join(VERIF, 'build', 'evidence_scratch')  # never overwrite the committed evidence with runs on patched trees
+    os.environ['VERIF_EVIDENCE_DIR'] = os.path.join(os.environ.get('VERIF_BUILD') or os.path.join(VERIF, 'build'), 'evidence_scratch')  # never overwrite the committed evidence with runs on patched trees
     out = {}
     for p in props:
         r = sh('cd %s && ./check %s' % (VERIF, p))
